@@ -54,6 +54,7 @@ type State struct {
 	larr   map[*ssa.Alloc]*LocalArr
 	defers []*ssa.Defer
 	held   map[string]bool
+	mayHeld map[string]string // lock -> Bool term: acquired in this call and not yet released on this path
 	fieldIdent map[string]string // field location -> identity of the []byte stored there during this call
 	frozen map[string]string // backing-array identity -> Bool term: handed over on a channel on this path
 }
@@ -79,6 +80,12 @@ func (s *State) clone() *State {
 	}
 	for k, v := range s.held {
 		n.held[k] = v
+	}
+	if len(s.mayHeld) > 0 {
+		n.mayHeld = map[string]string{}
+		for k, v := range s.mayHeld {
+			n.mayHeld[k] = v
+		}
 	}
 	n.defers = append([]*ssa.Defer{}, s.defers...)
 	return n
@@ -1043,6 +1050,31 @@ func (e *Exec) mergeStates(sts []*State, conds []string) *State {
 					la.elems[i] = valIte(c, la.elems[i], lb.elems[i])
 				}
 			}
+		}
+	}
+	// locks acquired in this call: path-sensitive (absent = not held)
+	{
+		keys := map[string]bool{}
+		for _, s := range sts {
+			for k := range s.mayHeld {
+				keys[k] = true
+			}
+		}
+		mh := func(s *State, k string) string {
+			if t, ok := s.mayHeld[k]; ok {
+				return t
+			}
+			return "false"
+		}
+		if len(keys) > 0 {
+			n.mayHeld = map[string]string{}
+		}
+		for _, k := range sortedKeys(keys) {
+			t := mh(sts[len(sts)-1], k)
+			for i := len(sts) - 2; i >= 0; i-- {
+				t = sIte(conds[i], mh(sts[i], k), t)
+			}
+			n.mayHeld[k] = t
 		}
 	}
 	// held locks: intersection
